@@ -55,6 +55,13 @@ M = [
  ('bio-seq/src/translation.rs', "                None => Err(TranslationError::AmbiguousCodon(amino)),", "                None => Err(TranslationError::InvalidAmino(amino)),", 'T', ['translation.lookup']),
  ('bio-seq/src/translation.rs', "            Err(TranslationError::InvalidAmino(amino))", "            Err(TranslationError::AmbiguousCodon(amino))", 'T', ['translation.lookup']),
  ('bio-seq/src/translation.rs', ".ok_or_else(|| TranslationError::InvalidCodon(codon.into()))", ".ok_or_else(|| TranslationError::AmbiguousTranslation(codon.into()))", 'T', ['translation.try_to_amino']),
+
+ ('bio-seq/src/translation/standard.rs', '(iupac!("TGG").into(), Amino::W),', '(iupac!("TGR").into(), Amino::W),', 'T', ['std.data_fwd']),
+ ('bio-seq/src/translation/standard.rs', '(iupac!("ATH").into(), Amino::I),', '(iupac!("ATY").into(), Amino::I),', 'T', ['std.data_rev']),
+ ('bio-seq/src/translation/standard.rs', '(iupac!("TRA").into(), Amino::X),', '(iupac!("TRA").into(), Amino::W),', 'T', ['std.data_fwd']),
+ ('bio-seq/src/translation/standard.rs', 'if codon.len() != 3 {', 'if codon.len() < 3 {', 'T', ['std.code']),
+ ('bio-seq/src/translation/standard.rs', '            if iupac_set.contains(codon) {', '            if !iupac_set.contains(codon) {', 'T', ['std.code']),
+ ('bio-seq/src/translation/standard.rs', '            Some(Some(codon)) => Ok(codon.clone()),\n            None | Some(None)', '            Some(Some(codon)) | Some(None) => Err(TranslationError::AmbiguousCodon(amino)),\n            None', 'T', ['std.reverse']),
 ]
 res = []
 ONLY = [int(x) for x in os.environ.get('ONLY', '').split(',') if x]
